@@ -651,7 +651,7 @@ def _filter_semantics(db, rep):
     """r8: ASTInterpreter::EvaluateFilterTuple evaluated on every set of pairs over {0,1}, every index list (also with repeated indices) and every
     choice of parameter sets: the result is {e in argument | component idx[i] of e is in parameter i, for every i}; an empty parameter gives {}."""
     import itertools
-    r8 = rep.rule('r8', 'FILTER: Fi_{i1..ik}[P1..Pk](S) keeps exactly the elements of S whose component i_j lies in P_j for every j (parameters are paired with indices by position)', 1)
+    r8 = rep.rule('r8', 'FILTER: Fi_{i1..ik}[P1..Pk](S) keeps exactly the elements of S whose component i_j lies in P_j for every j (parameters are paired with indices by position); with one parameter, those whose projection (i_1..i_k) lies in it', 2)
     f = db.fn(AI + '::EvaluateFilterTuple', required=False)
     if f is None:
         r8.broken('anchor vanished: ASTInterpreter::EvaluateFilterTuple')
@@ -662,6 +662,68 @@ def _filter_semantics(db, rep):
 
     def S(elems):
         return Obj(__kind__='sd', elems=list(elems))
+    def make_on_call(params, res):
+        def on_call(it, fn, n, env):
+            cs = n.get('cs') or ''
+            St = fn.stmts
+            last = cs.split('::')[-1]
+            if 'obj' not in n and n['k'] == 'CallExpr' and n.get('c'):
+                ce = fn.strip(St[n['c'][0]])
+                if ce is not None and ce['k'] == 'MemberExpr' and ce.get('c'):
+                    n = dict(n, obj=ce['c'][0])          # member call in a template pattern
+            dep = cs.startswith('<dependent>::')
+            if cs == AI + '::EvaluateChild':
+                c = it.eval(fn, St[n['args'][1]], env)
+                if not (0 <= c < len(params)):
+                    raise OutOfFragment('parameter %s of %d' % (c, len(params)))
+                return S(sorted(params[c]))
+            if last == 'ChildrenCount':
+                return len(params) + 1
+            if cs == AI + '::SetCurrent':
+                res['v'] = it.eval(fn, St[n['args'][0]], env)
+                return True
+            if cs == 'std::get' and n.get('args'):
+                return it.eval(fn, St[n['args'][0]], env)
+            if (cs in (SD + '::B', SD + '::T', SD + '::E', SD + '::ModifyB') or (dep and last in ('B', 'T', 'E', 'ModifyB'))) and 'obj' in n:
+                return it.eval(fn, St[n['obj']], env)
+            if cs == O + 'Factory::EmptySet':
+                return S([])
+            if cs == O + 'Factory::Tuple' and len(n.get('args', [])) == 1:
+                return tuple(it.eval(fn, St[n['args'][0]], env))
+            if 'obj' in n and last in ('IsEmpty', 'Contains', 'AddElement', 'Component', 'begin', 'end'):
+                recv = it.eval(fn, St[n['obj']], env)
+                args = [it.eval(fn, St[a], env) for a in n.get('args', [])]
+                if isinstance(recv, Obj) and 'elems' in recv:
+                    if last == 'IsEmpty':
+                        return not recv['elems']
+                    if last == 'Contains':
+                        return args[0] in recv['elems']
+                    if last == 'AddElement':
+                        if args[0] not in recv['elems']:
+                            recv['elems'].append(args[0])
+                        return True
+                    if last in ('begin', 'end'):
+                        return ('it', recv['elems'], 0 if last == 'begin' else len(recv['elems']))
+                if isinstance(recv, tuple) and last == 'Component':
+                    if not (1 <= args[0] <= len(recv)):
+                        raise OutOfFragment('component %s of a %d-tuple' % (args[0], len(recv)))
+                    return recv[args[0] - 1]
+            if n['k'] == 'CXXOperatorCallExpr' and n.get('op') in ('!=', '==', '++', '*') and 'PolyFCIterator' in cs:
+                a = it.eval(fn, St[n['args'][0]], env)
+                if n['op'] == '*':
+                    return a[1][a[2]]
+                if n['op'] == '++':
+                    nv = ('it', a[1], a[2] + 1)
+                    it.assign(fn, St[n['args'][0]], nv, env)
+                    return nv
+                b = it.eval(fn, St[n['args'][1]], env)
+                same = a[1] is b[1] and a[2] == b[2]
+                return same if n['op'] == '==' else not same
+            if n['k'] in ('CXXConstructExpr', 'CXXTemporaryObjectExpr') and len(n.get('args', [])) == 1 and (n.get('cls') or '').endswith('StructuredData'):
+                v = it.eval(fn, St[n['args'][0]], env)
+                return S(list(v['elems'])) if isinstance(v, Obj) and 'elems' in v else v
+            return NOT_HANDLED
+        return on_call
     try:
         for idx in ([1], [2], [1, 2], [2, 1], [1, 1], [2, 2]):
             for params in itertools.product(subsets, repeat=len(idx)):
@@ -670,64 +732,7 @@ def _filter_semantics(db, rep):
                         cases += 1
                         res = {}
 
-                        def on_call(it, fn, n, env, res=res):
-                            cs = n.get('cs') or ''
-                            St = fn.stmts
-                            last = cs.split('::')[-1]
-                            if 'obj' not in n and n['k'] == 'CallExpr' and n.get('c'):
-                                ce = fn.strip(St[n['c'][0]])
-                                if ce is not None and ce['k'] == 'MemberExpr' and ce.get('c'):
-                                    n = dict(n, obj=ce['c'][0])          # member call in a template pattern
-                            dep = cs.startswith('<dependent>::')
-                            if cs == AI + '::EvaluateChild':
-                                c = it.eval(fn, St[n['args'][1]], env)
-                                if not (0 <= c < len(params)):
-                                    raise OutOfFragment('parameter %s of %d' % (c, len(params)))
-                                return S(sorted(params[c]))
-                            if last == 'ChildrenCount':
-                                return len(params) + 1
-                            if cs == AI + '::SetCurrent':
-                                res['v'] = it.eval(fn, St[n['args'][0]], env)
-                                return True
-                            if cs == 'std::get' and n.get('args'):
-                                return it.eval(fn, St[n['args'][0]], env)
-                            if (cs in (SD + '::B', SD + '::T', SD + '::E', SD + '::ModifyB') or (dep and last in ('B', 'T', 'E', 'ModifyB'))) and 'obj' in n:
-                                return it.eval(fn, St[n['obj']], env)
-                            if cs == O + 'Factory::EmptySet':
-                                return S([])
-                            if 'obj' in n and last in ('IsEmpty', 'Contains', 'AddElement', 'Component', 'begin', 'end'):
-                                recv = it.eval(fn, St[n['obj']], env)
-                                args = [it.eval(fn, St[a], env) for a in n.get('args', [])]
-                                if isinstance(recv, Obj) and 'elems' in recv:
-                                    if last == 'IsEmpty':
-                                        return not recv['elems']
-                                    if last == 'Contains':
-                                        return args[0] in recv['elems']
-                                    if last == 'AddElement':
-                                        if args[0] not in recv['elems']:
-                                            recv['elems'].append(args[0])
-                                        return True
-                                    if last in ('begin', 'end'):
-                                        return ('it', recv['elems'], 0 if last == 'begin' else len(recv['elems']))
-                                if isinstance(recv, tuple) and last == 'Component':
-                                    if not (1 <= args[0] <= len(recv)):
-                                        raise OutOfFragment('component %s of a %d-tuple' % (args[0], len(recv)))
-                                    return recv[args[0] - 1]
-                            if n['k'] == 'CXXOperatorCallExpr' and n.get('op') in ('!=', '==', '++', '*') and 'PolyFCIterator' in cs:
-                                a = it.eval(fn, St[n['args'][0]], env)
-                                if n['op'] == '*':
-                                    return a[1][a[2]]
-                                if n['op'] == '++':
-                                    nv = ('it', a[1], a[2] + 1)
-                                    it.assign(fn, St[n['args'][0]], nv, env)
-                                    return nv
-                                b = it.eval(fn, St[n['args'][1]], env)
-                                same = a[1] is b[1] and a[2] == b[2]
-                                return same if n['op'] == '==' else not same
-                            if n['k'] in ('CXXConstructExpr', 'CXXTemporaryObjectExpr') and len(n.get('args', [])) == 1 and (n.get('cls') or '').endswith('StructuredData'):
-                                v = it.eval(fn, St[n['args'][0]], env)
-                                return S(list(v['elems'])) if isinstance(v, Obj) and 'elems' in v else v
-                            return NOT_HANDLED
+                        on_call = make_on_call(params, res)
                         it = Interp(db, on_call=on_call, max_steps=100000)
                         this = Obj(curValue=None)
                         ok = it.call(f, [Obj(__kind__='cursor'), list(idx), S(list(arg))], this)
@@ -747,6 +752,36 @@ def _filter_semantics(db, rep):
         r8.violation('EvaluateFilterTuple', '%s:%d' % (f.file, f.line), bad)
     else:
         r8.ok('EvaluateFilterTuple', 'agrees with the filter definition on %d (indices, parameters, argument) cases, repeated indices included' % cases, '%s:%d' % (f.file, f.line))
+    # the one-parameter form: Fi_{i1..ik}[P](S) with P a set of k-tuples keeps the elements whose projection (e_i1,...,e_ik) lies in P
+    g = db.fn(AI + '::EvaluateFilterComplex', required=False)
+    if g is None:
+        r8.broken('anchor vanished: ASTInterpreter::EvaluateFilterComplex')
+        return
+    bad, cases = None, 0
+    try:
+        for idx in ([1, 2], [2, 1], [1, 1]):
+            tuples = [(a, b) for a in (0, 1) for b in (0, 1)]
+            for pk in (0, 1, 2):
+                for P in itertools.combinations(tuples, pk):
+                    for k in (0, 1, 2, 3):
+                        for arg in itertools.combinations(pairs, k):
+                            cases += 1
+                            res = {}
+                            it = Interp(db, on_call=make_on_call([frozenset(P)], res), max_steps=100000)
+                            ok = it.call(g, [Obj(__kind__='cursor'), list(idx), S(list(arg))], Obj(curValue=None))
+                            want = set() if not P else {e for e in arg if tuple(e[i - 1] for i in idx) in P}
+                            got = set(res['v']['elems']) if ok and isinstance(res.get('v'), Obj) else None
+                            if got != want and bad is None:
+                                bad = 'indices %s, parameter %s, argument %s: result %s, expected %s' % (idx, sorted(P), sorted(arg), sorted(got) if got is not None else 'failure', sorted(want))
+    except OutOfFragment as e:
+        if str(e).startswith(('call to', 'expression kind', 'statement kind')):
+            r8.broken('EvaluateFilterComplex outside the evaluable fragment: %s' % e)
+            return
+        bad = 'faults: %s' % e
+    if bad:
+        r8.violation('EvaluateFilterComplex', '%s:%d' % (g.file, g.line), bad)
+    else:
+        r8.ok('EvaluateFilterComplex', 'agrees with the projection definition on %d (indices, parameter, argument) cases with several elements' % cases, '%s:%d' % (g.file, g.line))
 
 
 def _normalise_order(db, rep):
